@@ -1,4 +1,18 @@
 import Proofs.Lemmas.SafetyCommon
+/-!
+# Memory safety of the backtracking executor model (`Regress.VM.Bt`)
+
+* `run_ruleE` / `run_rule`: a Hoare-style rule for `Bt.run` (invariant `I` of the `'nextinsn` loop,
+  invariant `B` at a `break 'backtrack`, post-conditions `QM`/`QF`/`QE`, explicit ghost state for the
+  nested look-around runs).
+* `Inv`, `step_vc`, `back_vc`, `run_safe`: the safety invariant, generic in the position discipline
+  `Spec prog inp A V` of `SafetyCommon`; needs `start ≤ end` only at `BackRef { icase: true }`.
+* `step_frame`, `step_pos`: what one instruction does to the groups / stack / position.
+* `lookConfined`, `RInv`, `run_restores`, `attempt_groups_restored`: frame property and restoration
+  of the capture groups after a failed run.
+* `OInv`, `ostep_vc`, `obackLoop_vc`: the ordering certificate (`checkOrd`) is an invariant.
+* `run_safe_ord`: all three together — safety without any restriction on the instructions.
+-/
 
 namespace Regress.VM.Bt
 
@@ -1109,25 +1123,6 @@ end Inv
 
 section Frame
 
-/-- Every instruction at which the same run can continue after instruction `ip`. -/
-def allSuccs (prog : Prog) (ip : Nat) : Insn → List Nat
-  | .goal | .justFail => []
-  | .jump t => [t]
-  | .alt s => [ip + 1, s]
-  | .enterLoop _ _ _ _ exit => [ip + 1, exit]
-  | .loopAgain b =>
-    match prog.insns[b]? with
-    | some (.enterLoop _ _ _ _ exit) => [b + 1, exit]
-    | _ => []
-  | .lookahead _ _ _ k | .lookbehind _ _ _ k => [k]
-  | .loop1 _ _ _ => [ip + 2]
-  | _ => [ip + 1]
-
-/-- The capture group written by an instruction. -/
-def groupOf : Insn → Option Nat
-  | .beginCaptureGroup g | .endCaptureGroup g | .resetCaptureGroup g => some g
-  | _ => none
-
 /-- Undo the capture-group records of a stack (top first). -/
 def unwindG : List BtInsn → Array GroupData → Array GroupData
   | [], gs => gs
@@ -1210,14 +1205,14 @@ theorem groupAct_frame {ip : Nat} {insn : Insn} (h1 : ip + 1 ∈ allSuccs prog i
       exact setIfInBounds_self _ _ _ _ hcg
     · intro g' hg'
       have : g ≠ g' := fun h => hg' (h ▸ hg)
-      simp [Array.getElem?_setIfInBounds, this]
+      simp [this]
     · intro r hr
       simp only [List.mem_singleton] at hr
       subst hr
       exact hg
 
 theorem runLoop_frame {ip : Nat} {insn : Insn} (st : State) (bts : Array BtInsn) (id mn : Nat)
-    (mx : Option Nat) (gr : Bool) (exit pos lip : Nat) (hn : groupOf insn = none)
+    (mx : Option Nat) (gr : Bool) (exit pos lip : Nat) (_hn : groupOf insn = none)
     (h1 : lip + 1 ∈ allSuccs prog ip insn) (h2 : exit ∈ allSuccs prog ip insn)
     (st0 : State) (bts0 : Array BtInsn) (hext : Ext prog ip insn st0 bts0 st bts) :
     StepFrame prog ip insn st0 bts0
@@ -1405,6 +1400,346 @@ theorem step_frame {ip : Nat} {insn : Insn} (hi : prog.insns[ip]? = some insn) (
               cases g <;> simp [RecFrom, allSuccs]
           · exact Ext.refl _ _ _ _ _
 
+/-! ### Positions: every instruction moves weakly in the direction of the run -/
+
+theorem scmExactly_moves {m : Scm} {fwd : Bool} :
+    ∀ n pos p, scmExactly m inp fwd n pos = .ok (some p) → MovedLe fwd pos p := by
+  intro n
+  induction n with
+  | zero => intro pos p h; simp only [scmExactly, Except.ok.injEq, Option.some.injEq] at h; subst h; exact MovedLe.refl _ _
+  | succ n ih =>
+    intro pos p h
+    unfold scmExactly at h
+    split at h
+    · cases h
+    · cases h
+    · rename_i hm; exact (scm_moves hm).trans (ih _ _ h)
+
+theorem scmUpTo_moves {m : Scm} {fwd : Bool} :
+    ∀ fuel limit pos p, scmUpTo m inp fwd fuel limit pos = .ok p → MovedLe fwd pos p := by
+  intro fuel
+  induction fuel with
+  | zero => intro limit pos p h; simp [scmUpTo] at h
+  | succ fuel ih =>
+    intro limit pos p h
+    unfold scmUpTo at h
+    split at h
+    · simp only [Except.ok.injEq] at h; subst h; exact MovedLe.refl _ _
+    · split at h
+      · cases h
+      · simp only [Except.ok.injEq] at h; subst h; exact MovedLe.refl _ _
+      · rename_i hm; exact (scm_moves hm).trans (ih _ _ _ h)
+
+theorem runScmLoopImpl_moves {m : Scm} {fwd : Bool} {pos mn : Nat} {mx : Option Nat} {a c : Nat}
+    (h : runScmLoopImpl m inp fwd pos mn mx = .ok (some (a, c))) :
+    MovedLe fwd pos a ∧ MovedLe fwd a c := by
+  unfold runScmLoopImpl at h
+  split at h
+  · cases h
+  · cases h
+  · rename_i minPos he
+    simp only at h
+    split at h
+    · cases h
+    · split at h
+      · cases h
+      · rename_i maxPos hu
+        simp only [Except.ok.injEq, Option.some.injEq, Prod.mk.injEq] at h
+        obtain ⟨rfl, rfl⟩ := h
+        exact ⟨scmExactly_moves _ _ _ he, scmUpTo_moves _ _ _ _ hu⟩
+
+theorem withScmLoopImpl_moves {fwd : Bool} {pos mn : Nat} {mx : Option Nat} {ip a c : Nat}
+    (h : withScmLoopImpl prog inp fwd pos mn mx ip = .ok (some (a, c))) :
+    MovedLe fwd pos a ∧ MovedLe fwd a c := by
+  unfold withScmLoopImpl at h
+  split at h
+  · exact runScmLoopImpl_moves h
+  · split at h
+    · simp only [Except.ok.injEq, Option.some.injEq, Prod.mk.injEq] at h
+      obtain ⟨rfl, rfl⟩ := h
+      exact ⟨MovedLe.refl _ _, MovedLe.refl _ _⟩
+    · cases h
+  · cases h
+  · cases h
+  · cases h
+
+theorem withScmComputeMax_moves {fwd : Bool} {pos : Nat} {limit : Option Nat} {ip p : Nat}
+    (h : withScmComputeMax prog inp fwd pos limit ip = .ok p) : MovedLe fwd pos p := by
+  unfold withScmComputeMax at h
+  split at h
+  · exact scmUpTo_moves _ _ _ _ h
+  · simp only [Except.ok.injEq] at h; subst h; exact MovedLe.refl _ _
+  · cases h
+  · cases h
+  · cases h
+
+/-- Shape of a successful `run_scm_loop`. -/
+theorem runScmLoop_shape {fwd : Bool} {bts : Array BtInsn} {pos mn : Nat} {mx : Option Nat}
+    {ip : Nat} {g : Bool} {k p : Nat} {bts' : Array BtInsn}
+    (h : runScmLoop prog inp fwd bts pos mn mx ip g = .ok (some (k, p, bts'))) :
+    k = ip + 2 ∧ MovedLe fwd pos p ∧
+      (bts' = bts ∨ ∃ a c, MovedLe fwd pos a ∧
+        (bts' = bts.push (.greedyLoop1Char (ip + 2) a c) ∨
+         bts' = bts.push (.nonGreedyLoop1Char (ip + 2) a c))) := by
+  unfold runScmLoop at h
+  simp only at h
+  split at h
+  · cases h
+  · cases h
+  · rename_i a c hmm
+    simp only [Except.ok.injEq, Option.some.injEq, Prod.mk.injEq] at h
+    obtain ⟨rfl, rfl, rfl⟩ := h
+    have hac : MovedLe fwd pos a ∧ MovedLe fwd a c := by
+      cases g with
+      | true => simp only [if_true] at hmm; exact withScmLoopImpl_moves hmm
+      | false =>
+        simp only [Bool.false_eq_true, if_false] at hmm
+        split at hmm
+        · cases hmm
+        · cases hmm
+        · rename_i a0 c0 hw
+          have h1 := (withScmLoopImpl_moves hw).1
+          split at hmm
+          · split at hmm
+            · cases hmm
+            · rename_i mp hc
+              simp only [Except.ok.injEq, Option.some.injEq, Prod.mk.injEq] at hmm
+              obtain ⟨rfl, rfl⟩ := hmm
+              exact ⟨h1, withScmComputeMax_moves hc⟩
+          · simp only [Except.ok.injEq, Option.some.injEq, Prod.mk.injEq] at hmm
+            obtain ⟨rfl, rfl⟩ := hmm
+            exact ⟨h1, MovedLe.refl _ _⟩
+    refine ⟨rfl, ?_, ?_⟩
+    · cases g
+      · simp only [Bool.false_eq_true, if_false]; exact hac.1
+      · simp only [if_true]; exact hac.1.trans hac.2
+    · split
+      · right
+        refine ⟨a, c, hac.1, ?_⟩
+        cases g
+        · right; simp
+        · left; simp
+      · left; rfl
+
+/-- Positional content of a freshly pushed record. -/
+def RecPos (fwd : Bool) (pos : Nat) : BtInsn → Prop
+  | .setPosition _ p => p = pos
+  | .enterNonGreedyLoop _ _ d => d.entry = pos
+  | .greedyLoop1Char _ mn _ => MovedLe fwd pos mn
+  | .nonGreedyLoop1Char _ mn _ => MovedLe fwd pos mn
+  | _ => True
+
+/-- All records by which `bts'` extends `bts` satisfy `RecPos`. -/
+def NewRecs (fwd : Bool) (pos : Nat) (bts bts' : Array BtInsn) : Prop :=
+  ∀ recs, bts'.toList = bts.toList ++ recs → ∀ r ∈ recs, RecPos fwd pos r
+
+theorem NewRecs.of {fwd : Bool} {pos : Nat} {bts bts' : Array BtInsn} (l : List BtInsn)
+    (h : bts'.toList = bts.toList ++ l) (hl : ∀ r ∈ l, RecPos fwd pos r) : NewRecs fwd pos bts bts' := by
+  intro recs hr r hmem
+  rw [h] at hr
+  have := List.append_cancel_left hr
+  subst this
+  exact hl r hmem
+
+theorem NewRecs.refl (fwd : Bool) (pos : Nat) (bts : Array BtInsn) : NewRecs fwd pos bts bts :=
+  NewRecs.of [] (by simp) (fun r h => by cases h)
+
+/-- Positional effect of one instruction. -/
+def StepPos (fwd : Bool) (pos : Nat) (bts : Array BtInsn) : Act → Prop
+  | .cont _ pos' _ bts' => MovedLe fwd pos pos' ∧ NewRecs fwd pos bts bts'
+  | .back _ bts' => NewRecs fwd pos bts bts'
+  | _ => True
+
+theorem nextOrBt_pos {fwd : Bool} {pos : Nat} {r : Except Unit (Option Nat)}
+    (hr : ∀ p, r = .ok (some p) → MovedLe fwd pos p) (site : String) (ip : Nat) (st : State)
+    (bts : Array BtInsn) : StepPos fwd pos bts (nextOrBt r site ip st bts) := by
+  unfold nextOrBt
+  split
+  · trivial
+  · exact NewRecs.refl _ _ _
+  · exact ⟨hr _ rfl, NewRecs.refl _ _ _⟩
+
+theorem runLoop_pos {fwd : Bool} (st : State) (bts : Array BtInsn) (id mn : Nat) (mx : Option Nat)
+    (gr : Bool) (exit pos lip : Nat) (bts0 : Array BtInsn) (l0 : List BtInsn)
+    (h0 : bts.toList = bts0.toList ++ l0) (hl0 : ∀ r ∈ l0, RecPos fwd pos r) :
+    StepPos fwd pos bts0
+      (match runLoop st bts id mn mx gr exit pos lip with
+        | .err e => .err e
+        | .ok (some nextIp) st bts => .cont nextIp pos st bts
+        | .ok none st bts => .back st bts) := by
+  have ext : ∀ (new : List BtInsn) (bts' : Array BtInsn), bts'.toList = bts.toList ++ new →
+      (∀ r ∈ new, RecPos fwd pos r) → NewRecs fwd pos bts0 bts' := by
+    intro new bts' hb hn
+    refine NewRecs.of (l0 ++ new) (by rw [hb, h0, List.append_assoc]) ?_
+    intro r hr
+    rcases List.mem_append.mp hr with h | h
+    · exact hl0 r h
+    · exact hn r h
+  unfold runLoop
+  cases hld : st.loops[id]? with
+  | none => trivial
+  | some ld =>
+    simp only
+    cases (ld.entry == pos && decide (ld.iters > mn)) with
+    | true => simp only [if_true]; exact ext [] bts (by simp) (fun r h => by cases h)
+    | false =>
+      simp only [Bool.false_eq_true, if_false]
+      cases ltMax ld.iters mx <;> cases decide (ld.iters ≥ mn) <;> simp only []
+      · exact ext [] bts (by simp) (fun r h => by cases h)
+      · exact ⟨MovedLe.refl _ _, ext [] bts (by simp) (fun r h => by cases h)⟩
+      · simp only [prepareToEnterLoop]
+        refine ⟨MovedLe.refl _ _, ext [.setLoopData id ld] _ (by simp) ?_⟩
+        intro r hr; simp only [List.mem_singleton] at hr; subst hr; trivial
+      · cases gr with
+        | false =>
+          simp only [Bool.not_false, if_true]
+          refine ⟨MovedLe.refl _ _,
+            ext [.enterNonGreedyLoop lip ld.entry { ld with entry := pos }] _ (by simp) ?_⟩
+          intro r hr; simp only [List.mem_singleton] at hr; subst hr; rfl
+        | true =>
+          simp only [Bool.not_true, Bool.false_eq_true, if_false, prepareToEnterLoop]
+          refine ⟨MovedLe.refl _ _, ext [.setPosition exit pos, .setLoopData id ld] _ (by simp) ?_⟩
+          intro r hr
+          simp only [List.mem_cons, List.not_mem_nil, or_false] at hr
+          rcases hr with rfl | rfl
+          · rfl
+          · trivial
+
+theorem step_pos (ip pos : Nat) (fwd : Bool) (st : State) (bts : Array BtInsn) :
+    StepPos fwd pos bts (step prog inp ip pos fwd st bts) := by
+  have same : MovedLe fwd pos pos ∧ NewRecs fwd pos bts bts := ⟨MovedLe.refl _ _, NewRecs.refl _ _ _⟩
+  unfold step
+  cases hi : prog.insns[ip]? with
+  | none => trivial
+  | some insn =>
+    cases insn with
+    | goal => trivial
+    | justFail => exact NewRecs.refl _ _ _
+    | char c =>
+      simp only
+      split
+      · exact nextOrBt_pos (fun p h => scm_moves h) _ _ _ _
+      · exact NewRecs.refl _ _ _
+    | charSet cs => exact nextOrBt_pos (fun p h => scm_moves h) _ _ _ _
+    | byteSet bs => exact nextOrBt_pos (fun p h => scm_moves h) _ _ _ _
+    | byteSeq bs =>
+      refine nextOrBt_pos (fun p h => ?_) _ _ _ _
+      simp only [Except.ok.injEq, Cursor.tryMatchLit, Input.matchBytes] at h
+      exact matchBytes_moves h
+    | asciiBracket bm => exact nextOrBt_pos (fun p h => scm_moves h) _ _ _ _
+    | bracket idx =>
+      simp only
+      split
+      · trivial
+      · exact nextOrBt_pos (fun p h => scm_moves h) _ _ _ _
+    | matchAny => exact nextOrBt_pos (fun p h => scm_moves h) _ _ _ _
+    | matchAnyExceptLineTerminator => exact nextOrBt_pos (fun p h => scm_moves h) _ _ _ _
+    | wordBoundary inv =>
+      simp only [wordBoundaryAct]
+      split
+      · trivial
+      · split
+        · trivial
+        · split
+          · exact same
+          · exact NewRecs.refl _ _ _
+    | wordBoundaryUnicodeICase inv =>
+      simp only [wordBoundaryAct]
+      split
+      · trivial
+      · split
+        · trivial
+        · split
+          · exact same
+          · exact NewRecs.refl _ _ _
+    | startOfLine ml =>
+      simp only [lineAct]
+      split
+      · trivial
+      · exact same
+      · split
+        · exact same
+        · exact NewRecs.refl _ _ _
+    | endOfLine ml =>
+      simp only [lineAct]
+      split
+      · trivial
+      · exact same
+      · split
+        · exact same
+        · exact NewRecs.refl _ _ _
+    | jump t => exact same
+    | beginCaptureGroup g =>
+      simp only [groupAct]
+      split
+      · trivial
+      · rename_i cg _
+        exact ⟨MovedLe.refl _ _, NewRecs.of [.setCaptureGroup g cg] (by simp) (fun r hr => by
+          simp only [List.mem_singleton] at hr; subst hr; trivial)⟩
+    | endCaptureGroup g =>
+      simp only [groupAct]
+      split
+      · trivial
+      · rename_i cg _
+        exact ⟨MovedLe.refl _ _, NewRecs.of [.setCaptureGroup g cg] (by simp) (fun r hr => by
+          simp only [List.mem_singleton] at hr; subst hr; trivial)⟩
+    | resetCaptureGroup g =>
+      simp only [groupAct]
+      split
+      · trivial
+      · rename_i cg _
+        exact ⟨MovedLe.refl _ _, NewRecs.of [.setCaptureGroup g cg] (by simp) (fun r hr => by
+          simp only [List.mem_singleton] at hr; subst hr; trivial)⟩
+    | backRef g ic =>
+      simp only
+      split
+      · trivial
+      · split
+        · split
+          · exact nextOrBt_pos (fun p h => backrefIcase_moves h) _ _ _ _
+          · refine nextOrBt_pos (fun p h => ?_) _ _ _ _
+            simp only [Except.ok.injEq] at h
+            exact backref_moves h
+        · exact same
+    | lookahead neg sg eg k => trivial
+    | lookbehind neg sg eg k => trivial
+    | alt sec =>
+      exact ⟨MovedLe.refl _ _, NewRecs.of [.setPosition sec pos] (by simp) (fun r hr => by
+        simp only [List.mem_singleton] at hr; subst hr; rfl)⟩
+    | enterLoop id mn mx gr exit =>
+      simp only
+      cases hld : st.loops[id]? with
+      | none => trivial
+      | some ld =>
+        simp only
+        exact runLoop_pos _ _ id mn mx gr exit pos ip bts [.setLoopData id ld] (by simp)
+          (fun r hr => by simp only [List.mem_singleton] at hr; subst hr; trivial)
+    | loopAgain bg =>
+      simp only
+      cases hbg : prog.insns[bg]? with
+      | none => trivial
+      | some bi =>
+        cases bi <;> first
+          | trivial
+          | exact runLoop_pos st bts _ _ _ _ _ pos bg bts [] (by simp) (fun r hr => by cases hr)
+    | loop1 mn mx g =>
+      simp only
+      cases hr : runScmLoop prog inp fwd bts pos mn mx ip g with
+      | error e => trivial
+      | ok r =>
+        cases r with
+        | none => exact NewRecs.refl _ _ _
+        | some t =>
+          obtain ⟨k, p, bts'⟩ := t
+          obtain ⟨_, hmv, hb⟩ := runScmLoop_shape hr
+          refine ⟨hmv, ?_⟩
+          rcases hb with rfl | ⟨a, c, hma, rfl | rfl⟩
+          · exact NewRecs.refl _ _ _
+          · exact NewRecs.of [.greedyLoop1Char (ip + 2) a c] (by simp) (fun r hr => by
+              simp only [List.mem_singleton] at hr; subst hr; exact hma)
+          · exact NewRecs.of [.nonGreedyLoop1Char (ip + 2) a c] (by simp) (fun r hr => by
+              simp only [List.mem_singleton] at hr; subst hr; exact hma)
+
 /-! ### Regions: a look-around body and the capture groups it owns -/
 
 /-- Instructions `[lo, hi)`, groups `[gs, ge)`. -/
@@ -1584,7 +1919,7 @@ theorem restoreG_getElem? : ∀ (saved : List GroupData) (id : Nat) (gs : Array 
       · simp [h2]
       · simp only [h2, if_false, if_true]
         rw [Array.getElem?_eq_none (by omega)]
-        simp [h2]
+        simp
     · simp only [h, if_false]
       by_cases h3 : id + 1 ≤ g ∧ g < id + 1 + rest.length ∧ g < gs.size
       · have : id ≤ g ∧ g < id + (rest.length + 1) ∧ g < gs.size := by omega
@@ -1885,6 +2220,514 @@ theorem attempt_groups_restored (hlc : lookConfined prog = true) (limit sf ip po
     ⟨trivial, trivial, [], rfl, fun r hr => (by cases hr), rfl, rfl, fun _ _ => rfl⟩
   rw [h] at this
   exact this
+
+/-! ### Ordering of the capture ranges: the invariant -/
+
+/-- The ordering certificate holds for every configuration that the stack can resume (top first),
+with the groups as they will be when it is resumed. -/
+def OStack (c : OrdCert) (fwd : Bool) : List BtInsn → Array GroupData → Prop
+  | [], _ => True
+  | .setPosition ip pos :: rest, gs => OrdAt c fwd ip pos gs ∧ OStack c fwd rest gs
+  | .setCaptureGroup id d :: rest, gs => OStack c fwd rest (gs.setIfInBounds id d)
+  | .enterNonGreedyLoop lip _ d :: rest, gs => OrdAt c fwd (lip + 1) d.entry gs ∧ OStack c fwd rest gs
+  | .greedyLoop1Char k mn _ :: rest, gs => OrdAt c fwd k mn gs ∧ OStack c fwd rest gs
+  | .nonGreedyLoop1Char k mn _ :: rest, gs => OrdAt c fwd k mn gs ∧ OStack c fwd rest gs
+  | .setLoopData _ _ :: rest, gs => OStack c fwd rest gs
+  | .exhausted :: rest, gs => OStack c fwd rest gs
+
+/-- What a non-capture record needs. -/
+def RecOrd (c : OrdCert) (fwd : Bool) (gs : Array GroupData) : BtInsn → Prop
+  | .setPosition ip pos => OrdAt c fwd ip pos gs
+  | .enterNonGreedyLoop lip _ d => OrdAt c fwd (lip + 1) d.entry gs
+  | .greedyLoop1Char k mn _ => OrdAt c fwd k mn gs
+  | .nonGreedyLoop1Char k mn _ => OrdAt c fwd k mn gs
+  | .setCaptureGroup _ _ => False
+  | _ => True
+
+theorem OStack.append_plain {c : OrdCert} {fwd : Bool} {gs : Array GroupData} :
+    ∀ (l l2 : List BtInsn), (∀ r ∈ l, RecOrd c fwd gs r) → OStack c fwd l2 gs →
+      OStack c fwd (l ++ l2) gs := by
+  intro l
+  induction l with
+  | nil => intro l2 _ h; exact h
+  | cons r l ih =>
+    intro l2 hl h2
+    have hr := hl r (by simp)
+    have ht := ih l2 (fun r' hr' => hl r' (by simp [hr'])) h2
+    cases r with
+    | setCaptureGroup id d => exact hr.elim
+    | setPosition ip pos => exact ⟨hr, ht⟩
+    | enterNonGreedyLoop lip o d => exact ⟨hr, ht⟩
+    | greedyLoop1Char k mn mx => exact ⟨hr, ht⟩
+    | nonGreedyLoop1Char k mn mx => exact ⟨hr, ht⟩
+    | setLoopData id d => exact ht
+    | exhausted => exact ht
+
+theorem OStack.append_caps {c : OrdCert} {fwd : Bool} :
+    ∀ (l l2 : List BtInsn) (gs : Array GroupData), (∀ r ∈ l, ∃ id d, r = .setCaptureGroup id d) →
+      OStack c fwd l2 (unwindG l gs) → OStack c fwd (l ++ l2) gs := by
+  intro l
+  induction l with
+  | nil => intro l2 gs _ h; exact h
+  | cons r l ih =>
+    intro l2 gs hl h2
+    obtain ⟨id, d, rfl⟩ := hl r (by simp)
+    exact ih l2 _ (fun r' hr' => hl r' (by simp [hr'])) h2
+
+/-- The stack part of the ordering invariant. -/
+def OStk (c : OrdCert) (fwd : Bool) (st : State) (bts : Array BtInsn) : Prop :=
+  ∃ rest, bts.toList = .exhausted :: rest ∧ OStack c fwd rest.reverse st.groups
+
+theorem OStk.congr {c : OrdCert} {fwd : Bool} {st st' : State} {bts : Array BtInsn}
+    (h : OStk c fwd st bts) (hg : st'.groups = st.groups) : OStk c fwd st' bts := by
+  obtain ⟨rest, h1, h2⟩ := h
+  exact ⟨rest, h1, by rw [hg]; exact h2⟩
+
+def OInv (prog : Prog) (c : OrdCert) (γ : Option Region × Array GroupData) (fwd : Bool) (ip pos : Nat)
+    (st : State) (bts : Array BtInsn) : Prop :=
+  RInv prog γ fwd ip pos st bts ∧ OrdAt c fwd ip pos st.groups ∧ OStk c fwd st bts
+
+def OInvB (prog : Prog) (c : OrdCert) (γ : Option Region × Array GroupData) (fwd : Bool)
+    (st : State) (bts : Array BtInsn) : Prop :=
+  RInvB prog γ fwd st bts ∧ OStk c fwd st bts
+
+def OQM (γ : Option Region × Array GroupData) (fwd : Bool) (e : Nat) (st : State) : Prop :=
+  RQM γ fwd e st ∧ ∀ (g : Nat) (gd : GroupData), st.groups[g]? = some gd → Ordered gd
+
+theorem outVec_plain {insn : Insn} (h : groupOf insn = none) (v : Array Nat) : outVec insn v = v := by
+  cases insn <;> first | rfl | (simp [groupOf] at h)
+
+theorem ordEdges_plain {prog : Prog} {ip : Nat} {insn : Insn} (v : Array Nat)
+    (hl : ∀ neg sg eg k, insn ≠ .lookahead neg sg eg k ∧ insn ≠ .lookbehind neg sg eg k) {t : Nat}
+    (ht : t ∈ allSuccs prog ip insn) : (t, outVec insn v) ∈ ordEdges prog ip insn v := by
+  cases insn <;> first
+    | exact absurd rfl (hl _ _ _ _).1
+    | exact absurd rfl (hl _ _ _ _).2
+    | (simp only [ordEdges, List.mem_map]; exact ⟨t, ht, rfl⟩)
+
+/-- Extending the stack by the records of a non-capture instruction. -/
+theorem OStk.ext_plain {c : OrdCert} {fwd : Bool} {prog : Prog} (hchk : checkOrd prog c = true)
+    {ip pos : Nat} {insn : Insn} {st st' : State} {bts bts' : Array BtInsn} {v : Array Nat}
+    (hi : prog.insns[ip]? = some insn) (hv : c[ip]? = some (some v)) (hvec : VecOK fwd pos v st.groups)
+    (hgo : groupOf insn = none)
+    (hl : ∀ neg sg eg k, insn ≠ .lookahead neg sg eg k ∧ insn ≠ .lookbehind neg sg eg k)
+    (h : OStk c fwd st bts) (hext : Ext prog ip insn st bts st' bts')
+    (hpos : NewRecs fwd pos bts bts') :
+    st'.groups = st.groups ∧ OStk c fwd st' bts' ∧
+      ∀ t ∈ allSuccs prog ip insn, ∀ p, MovedLe fwd pos p → OrdAt c fwd t p st.groups := by
+  obtain ⟨rest, hb, hstk⟩ := h
+  obtain ⟨recs, h1, h2, h3, h4, h5⟩ := hext
+  have hgs : st'.groups = st.groups := by
+    apply Array.ext_getElem?
+    intro g
+    exact h4 g (by rw [hgo]; simp)
+  have hedge : ∀ t ∈ allSuccs prog ip insn, ∀ p, MovedLe fwd pos p → OrdAt c fwd t p st.groups := by
+    intro t ht p hp
+    obtain ⟨vt, hvt, hw⟩ := (checkOrd_spec hchk hi hv).2.2 t _ (ordEdges_plain v hl ht)
+    rw [outVec_plain hgo] at hw
+    exact ⟨vt, hvt, (hvec.mono hp).weaken hw⟩
+  refine ⟨hgs, ⟨rest ++ recs, by rw [h1, hb]; rfl, ?_⟩, hedge⟩
+  rw [List.reverse_append, hgs]
+  apply OStack.append_plain _ _ _ hstk
+  intro r hr
+  have hr' := List.mem_reverse.mp hr
+  have hfrom := h5 r hr'
+  have hp := hpos recs h1 r hr'
+  cases r with
+  | exhausted => exact hfrom.elim
+  | setLoopData _ _ => trivial
+  | setCaptureGroup id d =>
+    have : groupOf insn = some id := hfrom
+    rw [hgo] at this; cases this
+  | setPosition t p =>
+    have : p = pos := hp
+    subst this
+    exact hedge t hfrom p (MovedLe.refl _ _)
+  | enterNonGreedyLoop lip o d =>
+    have : d.entry = pos := hp
+    show OrdAt c fwd (lip + 1) d.entry st.groups
+    rw [this]
+    exact hedge _ hfrom pos (MovedLe.refl _ _)
+  | greedyLoop1Char k mn mx => exact hedge k hfrom mn hp
+  | nonGreedyLoop1Char k mn mx => exact hedge k hfrom mn hp
+
+theorem not_look_of_cont {ip : Nat} {insn : Insn} (hi : prog.insns[ip]? = some insn) {pos : Nat}
+    {fwd : Bool} {st : State} {bts : Array BtInsn} {a : Act}
+    (hact : step prog inp ip pos fwd st bts = a) (ha : ∀ d n sg eg k s b, a ≠ .look d n sg eg k s b) :
+    ∀ neg sg eg k, insn ≠ .lookahead neg sg eg k ∧ insn ≠ .lookbehind neg sg eg k := by
+  intro neg sg eg k
+  constructor <;>
+  · intro h
+    subst h
+    unfold step at hact
+    rw [hi] at hact
+    exact ha _ _ _ _ _ _ _ hact.symm
+
+/-- The three capture group instructions. -/
+theorem ogroup_vc {c : OrdCert} (hchk : checkOrd prog c = true) (hlc : lookConfined prog = true)
+    {γ : Option Region × Array GroupData} {fwd : Bool} {ip pos : Nat} {st : State}
+    {bts : Array BtInsn} (h : OInv prog c γ fwd ip pos st bts) {insn : Insn}
+    (hi : prog.insns[ip]? = some insn) {g : Nat} (upd : GroupData → GroupData) (site : String)
+    (hstep : step prog inp ip pos fwd st bts = groupAct g upd site ip pos st bts)
+    (hgo : groupOf insn = some g) (ka : Nat) (hout : ∀ v, outVec insn v = v.setIfInBounds g ka)
+    (hsem : ∀ v cg, c[ip]? = some (some v) → (∃ k, v[g]? = some k ∧ Sem fwd pos k cg) →
+      Sem fwd pos ka (upd cg)) :
+    StepVCE (OInv prog c) (OInvB prog c) OQM RQF rnest True γ fwd ip pos st bts
+      (step prog inp ip pos fwd st bts) := by
+  obtain ⟨hR, ⟨v, hv, hvec⟩, hstk⟩ := h
+  have hRvc := rstep_vc (inp := inp) hlc hR
+  rw [hstep] at hRvc ⊢
+  unfold groupAct at hRvc ⊢
+  cases hcg : st.groups[g]? with
+  | none => trivial
+  | some cg =>
+    rw [hcg] at hRvc
+    refine ⟨hRvc, ?_, ?_⟩
+    · have hs1 : ip + 1 ∈ allSuccs prog ip insn := by
+        cases insn <;> simp [groupOf] at hgo <;> simp [allSuccs]
+      have hedge : (ip + 1, outVec insn v) ∈ ordEdges prog ip insn v := by
+        cases insn <;> simp [groupOf] at hgo <;> simp [ordEdges, allSuccs]
+      obtain ⟨vt, hvt, hw⟩ := (checkOrd_spec hchk hi hv).2.2 _ _ hedge
+      rw [hout] at hw
+      exact ⟨vt, hvt, (hvec.setGroup g ka (hsem v cg hv (hvec g cg hcg))).weaken hw⟩
+    · obtain ⟨rest, hb, hs⟩ := hstk
+      refine ⟨rest ++ [.setCaptureGroup g cg], by simp [hb], ?_⟩
+      rw [List.reverse_append, List.reverse_singleton, List.singleton_append]
+      show OStack c fwd rest.reverse ((st.groups.setIfInBounds g (upd cg)).setIfInBounds g cg)
+      rw [setIfInBounds_self _ _ _ _ hcg]
+      exact hs
+
+theorem ostep_vc {c : OrdCert} (hchk : checkOrd prog c = true) (hlc : lookConfined prog = true)
+    {γ : Option Region × Array GroupData} {fwd : Bool} {ip pos : Nat} {st : State}
+    {bts : Array BtInsn} (h : OInv prog c γ fwd ip pos st bts) :
+    StepVCE (OInv prog c) (OInvB prog c) OQM RQF rnest True γ fwd ip pos st bts
+      (step prog inp ip pos fwd st bts) := by
+  have hO := h
+  obtain ⟨hR, ⟨v, hv, hvec⟩, hstk⟩ := h
+  have hRvc := rstep_vc (inp := inp) hlc hR
+  cases hi : prog.insns[ip]? with
+  | none => unfold step; rw [hi]; trivial
+  | some insn =>
+    have hf := step_frame (inp := inp) hi pos fwd st bts
+    have hp := step_pos (prog := prog) (inp := inp) ip pos fwd st bts
+    have hspec := checkOrd_spec hchk hi hv
+    cases hgo : groupOf insn with
+    | some g =>
+      cases insn with
+      | beginCaptureGroup g' =>
+        refine ogroup_vc hchk hlc hO hi _ _ (by unfold step; rw [hi]) rfl 2 (fun _ => rfl) ?_
+        intro v' cg hv' hk
+        rw [hv] at hv'; cases hv'
+        obtain ⟨k, hk1, hk2⟩ := hk
+        rw [hspec.1 _ rfl] at hk1; cases hk1
+        exact sem_begin hk2
+      | endCaptureGroup g' =>
+        refine ogroup_vc hchk hlc hO hi _ _ (by unfold step; rw [hi]) rfl 0 (fun _ => rfl) ?_
+        intro v' cg hv' hk
+        rw [hv] at hv'; cases hv'
+        obtain ⟨k, hk1, hk2⟩ := hk
+        rw [hspec.2.1 _ rfl] at hk1; cases hk1
+        exact sem_end hk2
+      | resetCaptureGroup g' =>
+        refine ogroup_vc hchk hlc hO hi _ _ (by unfold step; rw [hi]) rfl 1 (fun _ => rfl) ?_
+        intro v' cg _ _
+        exact sem_reset _ _
+      | _ => simp [groupOf] at hgo
+    | none =>
+      cases hact : step prog inp ip pos fwd st bts with
+      | err e => trivial
+      | goal p st' =>
+        rw [hact] at hRvc hf
+        have : st' = st := hf
+        subst this
+        exact ⟨hRvc, hvec.ordered⟩
+      | cont ip' pos' st' bts' =>
+        rw [hact] at hRvc hf hp
+        have hl := not_look_of_cont hi hact (fun _ _ _ _ _ _ _ h => by cases h)
+        obtain ⟨hgs, hstk', hedge⟩ := OStk.ext_plain hchk hi hv hvec hgo hl hstk hf.2 hp.2
+        exact ⟨hRvc, by rw [hgs]; exact hedge ip' hf.1 pos' hp.1, hstk'⟩
+      | back st' bts' =>
+        rw [hact] at hRvc hf hp
+        have hl := not_look_of_cont hi hact (fun _ _ _ _ _ _ _ h => by cases h)
+        obtain ⟨hgs, hstk', hedge⟩ := OStk.ext_plain hchk hi hv hvec hgo hl hstk hf hp
+        exact ⟨hRvc, hstk'⟩
+      | look d neg sg eg k st1 bts1 =>
+        rw [hact] at hRvc hf
+        obtain ⟨hs1, hs2, _, hRg⟩ := hRvc
+        refine ⟨hs1, hs2, fun _ => trivial, fun hguard => ?_⟩
+        obtain ⟨hRi, hRm, hRf⟩ := hRg hguard
+        -- the two edges of the look-around
+        have hedges : (ip + 1, lookBodyVec v) ∈ ordEdges prog ip insn v ∧
+            (k, lookContVec neg sg eg v) ∈ ordEdges prog ip insn v := by
+          rcases hf with rfl | rfl <;> simp [ordEdges]
+        obtain ⟨vb, hvb, hwb⟩ := hspec.2.2 _ _ hedges.1
+        obtain ⟨vk, hvk, hwk⟩ := hspec.2.2 _ _ hedges.2
+        have hre := fun (gs : Array GroupData) hsz hag f hfp =>
+          restore_eq (G := st.groups) (gs := gs) (sg := sg) (eg := eg) hguard.1 hguard.2 hsz hag f hfp
+        refine ⟨⟨hRi, ⟨vb, hvb, hvec.lookBody.weaken hwb⟩, [], rfl, trivial⟩, ?_, ?_⟩
+        · intro e st' hq
+          obtain ⟨hq1, hq2⟩ := hq
+          have hR' := hRm e st' hq1
+          obtain ⟨hsz, hag'⟩ := hq1
+          have hag'' : ∀ g : Nat, ¬ (sg ≤ g ∧ g < eg) → st'.groups[g]? = st.groups[g]? := hag'
+          cases neg with
+          | false =>
+            simp only [if_true] at hR' ⊢
+            refine ⟨hR', ⟨vk, hvk, (hvec.lookCont hsz hag'' hq2).weaken hwk⟩, ?_⟩
+            obtain ⟨rest, hb, hs⟩ := hstk
+            obtain ⟨recs, h1, h2, h3⟩ := pushSavedGroups_toList (st.groups.extract sg eg).toList sg bts
+            refine ⟨rest ++ recs, by rw [h1, hb]; rfl, ?_⟩
+            rw [List.reverse_append]
+            apply OStack.append_caps
+            · intro r hr
+              obtain ⟨i, dd, rfl, _, _⟩ := h2 r (List.mem_reverse.mp hr)
+              exact ⟨i, dd, rfl⟩
+            · rw [h3, hre _ hsz hag'' restoreG restoreG_getElem?]
+              exact hs
+          | true =>
+            simp only [Bool.true_eq_false, if_false] at hR' ⊢
+            exact ⟨hR', hstk.congr (hre _ hsz hag'' spliceGroups spliceGroups_getElem?)⟩
+        · intro st' hq
+          have hR' := hRf st' hq
+          have hq' : st'.groups = st.groups := hq
+          have hsp : spliceGroups (st.groups.extract sg eg).toList sg st'.groups = st.groups :=
+            hre _ (by rw [hq']) (fun g _ => by rw [hq']) spliceGroups spliceGroups_getElem?
+          cases neg with
+          | true =>
+            simp only [if_true] at hR' ⊢
+            refine ⟨hR', ⟨vk, hvk, ?_⟩, hstk.congr hsp⟩
+            show VecOK fwd pos vk (spliceGroups (st.groups.extract sg eg).toList sg st'.groups)
+            rw [hsp]
+            exact hvec.lookContNeg.weaken hwk
+          | false =>
+            simp only [Bool.false_eq_true, if_false] at hR' ⊢
+            exact ⟨hR', hstk.congr hsp⟩
+
+theorem OrdAt.mono {c : OrdCert} {fwd : Bool} {ip pos pos' : Nat} {gs : Array GroupData}
+    (h : OrdAt c fwd ip pos gs) (hm : MovedLe fwd pos pos') : OrdAt c fwd ip pos' gs := by
+  obtain ⟨v, hv, hvec⟩ := h
+  exact ⟨v, hv, hvec.mono hm⟩
+
+/-- `try_backtrack` for the ordering invariant; the safety invariant of the stack provides the
+bounds on the positions resumed from `Loop1Char` records. -/
+theorem obackLoop_vc {A : Bool → Nat → Nat → Prop} {V : Nat → Prop} (hs : Spec prog inp A V)
+    {c : OrdCert} (b : Nat) (fwd : Bool) :
+    ∀ n st bts, StackOK prog A V b fwd bts → OStk c fwd st bts →
+      BtPostE True (fun ip pos st bts => OrdAt c fwd ip pos st.groups ∧ OStk c fwd st bts)
+        (fun _ => True) (tryBacktrackLoop prog inp fwd n st bts) := by
+  intro n
+  induction n with
+  | zero => intro st bts _ _; trivial
+  | succ n ih =>
+    intro st bts hsk hstk
+    obtain ⟨rest, hb, hos⟩ := hstk
+    unfold tryBacktrackLoop
+    rcases List.eq_nil_or_concat rest with rfl | ⟨rest', top, hrt⟩
+    · have := (arr_snoc (l := []) (by simpa using hb)).1
+      rw [this]
+      trivial
+    · rw [List.concat_eq_append] at hrt
+      subst hrt
+      have hsn : bts.toList = (.exhausted :: rest') ++ [top] := by rw [hb]; simp
+      obtain ⟨hbk, hpop, hset⟩ := arr_snoc hsn
+      rw [hbk]
+      rw [List.reverse_append, List.reverse_singleton, List.singleton_append] at hos
+      -- the safety facts about the top record
+      have hsz : 1 < bts.size := by
+        have := congrArg List.length hsn
+        simp at this; omega
+      have htop : RecOK prog A V b fwd top := by
+        rcases hsk.back with ⟨h1, h2⟩ | ⟨r, h1, h2, _⟩
+        · omega
+        · rw [hbk] at h1; cases h1; exact h2
+      have hskp := hsk.pop hsz
+      have hpopstk : ∀ st' : State, OStack c fwd rest'.reverse st'.groups → OStk c fwd st' bts.pop :=
+        fun st' h => ⟨rest', hpop, h⟩
+      cases top with
+      | exhausted => exact htop.elim
+      | setPosition ip pos => exact ⟨hos.1, hpopstk st hos.2⟩
+      | setLoopData id d =>
+        simp only
+        split
+        · exact ih _ _ hskp (hpopstk _ hos)
+        · trivial
+      | setCaptureGroup id d =>
+        simp only
+        split
+        · exact ih _ _ hskp (hpopstk _ hos)
+        · trivial
+      | enterNonGreedyLoop lip orig d =>
+        simp only
+        split
+        · trivial
+        · split
+          · rename_i _ lid _ _ _ _ _ _
+            simp only [prepareToEnterLoop]
+            refine ⟨hos.1, rest' ++ [.setLoopData lid { d with entry := orig }, .setLoopData lid d], ?_, ?_⟩
+            · rw [Array.toList_push, hset]; simp
+            · rw [List.reverse_append]
+              exact hos.2
+          · trivial
+        · trivial
+      | greedyLoop1Char k mn mx =>
+        obtain ⟨hmn, hmx, hle, _, _⟩ := htop
+        simp only
+        by_cases heq : mx = mn
+        · simp only [heq, beq_self_eq_true, if_true]
+          exact ih _ _ hskp (hpopstk _ hos.2)
+        · have hne : (mx == mn) = false := by simpa using heq
+          simp only [hne, Bool.false_eq_true, if_false]
+          have fin : ∀ p, MovedLe fwd mn p →
+              OrdAt c fwd k p st.groups ∧
+              OStk c fwd st (bts.setIfInBounds (bts.size - 1) (.greedyLoop1Char k mn p)) := by
+            intro p hp
+            refine ⟨OrdAt.mono hos.1 hp, rest' ++ [.greedyLoop1Char k mn p], by rw [hset]; simp, ?_⟩
+            rw [List.reverse_append, List.reverse_singleton, List.singleton_append]
+            exact hos
+          cases fwd with
+          | true =>
+            have hlt : mn < mx := by have := hle.1 rfl; omega
+            obtain ⟨p, hp, h1, h2, hv⟩ := hs.stepL hmn hmx hlt
+            simp only [if_true, hp]
+            exact fin p (MovedLe.fwd h1)
+          | false =>
+            have hlt : mx < mn := by have := hle.2 rfl; omega
+            obtain ⟨p, hp, h1, h2, hv⟩ := hs.stepR hmx hmn hlt
+            simp only [Bool.false_eq_true, if_false, hp]
+            exact fin p (MovedLe.bwd h2)
+      | nonGreedyLoop1Char k mn mx =>
+        obtain ⟨hmn, hmx, hle, _, _⟩ := htop
+        simp only
+        by_cases heq : mx = mn
+        · simp only [heq, beq_self_eq_true, if_true]
+          exact ih _ _ hskp (hpopstk _ hos.2)
+        · have hne : (mx == mn) = false := by simpa using heq
+          simp only [hne, Bool.false_eq_true, if_false]
+          have fin : ∀ p, MovedLe fwd mn p →
+              OrdAt c fwd k p st.groups ∧
+              OStk c fwd st (bts.setIfInBounds (bts.size - 1) (.nonGreedyLoop1Char k p mx)) := by
+            intro p hp
+            refine ⟨OrdAt.mono hos.1 hp, rest' ++ [.nonGreedyLoop1Char k p mx], by rw [hset]; simp, ?_⟩
+            rw [List.reverse_append, List.reverse_singleton, List.singleton_append]
+            exact ⟨OrdAt.mono hos.1 hp, hos.2⟩
+          cases fwd with
+          | true =>
+            have hlt : mn < mx := by have := hle.1 rfl; omega
+            obtain ⟨p, hp, h1, h2, hv⟩ := hs.stepR hmn hmx hlt
+            simp only [if_true, hp]
+            exact fin p (MovedLe.fwd (Nat.le_of_lt h1))
+          | false =>
+            have hlt : mx < mn := by have := hle.2 rfl; omega
+            obtain ⟨p, hp, h1, h2, hv⟩ := hs.stepL hmx hmn hlt
+            simp only [Bool.false_eq_true, if_false, hp]
+            exact fin p (MovedLe.bwd (Nat.le_of_lt h2))
+
+/-! ### Safety + frame + ordering together -/
+
+section Total
+variable {A : Bool → Nat → Nat → Prop} {V : Nat → Prop}
+
+abbrev TGhost := Nat × (Option Region × Array GroupData)
+
+def TInv (prog : Prog) (A : Bool → Nat → Nat → Prop) (V : Nat → Prop) (c : OrdCert) (γ : TGhost)
+    (fwd : Bool) (ip pos : Nat) (st : State) (bts : Array BtInsn) : Prop :=
+  Inv prog A V γ.1 fwd ip pos st bts ∧ OInv prog c γ.2 fwd ip pos st bts
+
+def TInvB (prog : Prog) (A : Bool → Nat → Nat → Prop) (V : Nat → Prop) (c : OrdCert) (γ : TGhost)
+    (fwd : Bool) (st : State) (bts : Array BtInsn) : Prop :=
+  InvB prog A V γ.1 fwd st bts ∧ OInvB prog c γ.2 fwd st bts
+
+def TQM (prog : Prog) (V : Nat → Prop) (γ : TGhost) (fwd : Bool) (e : Nat) (st : State) : Prop :=
+  QMs prog V γ.1 fwd e st ∧ OQM γ.2 fwd e st
+
+def TQF (prog : Prog) (V : Nat → Prop) (γ : TGhost) (fwd : Bool) (st : State) : Prop :=
+  StateOK prog V st ∧ RQF γ.2 fwd st
+
+def tnest (γ : TGhost) (ip pos : Nat) (st : State) (sg eg k : Nat) : TGhost :=
+  (pos, rnest γ.2 ip pos st sg eg k)
+
+theorem icaseOrdered_of_ordAt {c : OrdCert} {fwd : Bool} {ip pos : Nat} {st : State}
+    (h : OrdAt c fwd ip pos st.groups) : IcaseOrdered prog ip st := by
+  intro g gd rs re _ hg hr
+  obtain ⟨v, _, hvec⟩ := h
+  have ho := hvec.ordered g gd hg
+  unfold GroupData.asRange at hr
+  split at hr
+  · rename_i s e h1 h2; cases hr; exact ho _ _ h1 h2
+  · cases hr
+
+theorem tstep_vc (hs : Spec prog inp A V) (hw : wfProg prog = true) {c : OrdCert}
+    (hchk : checkOrd prog c = true) (hlc : lookConfined prog = true) {γ : TGhost} {fwd : Bool}
+    {ip pos : Nat} {st : State} {bts : Array BtInsn} (h : TInv prog A V c γ fwd ip pos st bts) :
+    StepVC (TInv prog A V c) (TInvB prog A V c) (TQM prog V) (TQF prog V) tnest γ fwd ip pos st bts
+      (step prog inp ip pos fwd st bts) := by
+  have h1 := step_vc hs hw h.1 (icaseOrdered_of_ordAt h.2.2.1)
+  have h2 := ostep_vc (inp := inp) hchk hlc h.2
+  cases hact : step prog inp ip pos fwd st bts with
+  | err e => rw [hact] at h1; exact h1
+  | goal p st' => rw [hact] at h1 h2; exact ⟨h1, h2⟩
+  | cont ip' pos' st' bts' => rw [hact] at h1 h2; exact ⟨h1, h2⟩
+  | back st' bts' => rw [hact] at h1 h2; exact ⟨h1, h2⟩
+  | look d neg sg eg k st1 bts1 =>
+    rw [hact] at h1 h2
+    obtain ⟨e1, e2, hle, hsz, hI1, hm1, hf1⟩ := h1
+    obtain ⟨_, _, _, hg2⟩ := h2
+    obtain ⟨hI2, hm2, hf2⟩ := hg2 ⟨hle, hsz⟩
+    refine ⟨e1, e2, hle, hsz, ⟨hI1, hI2⟩, ?_, ?_⟩
+    · intro e st' hq
+      have a1 := hm1 e st' hq.1
+      have a2 := hm2 e st' hq.2
+      cases neg with
+      | false => simp only [if_true] at a1 a2 ⊢; exact ⟨a1, a2⟩
+      | true => simp only [Bool.true_eq_false, if_false] at a1 a2 ⊢; exact ⟨a1, a2⟩
+    · intro st' hq
+      have a1 := hf1 st' hq.1
+      have a2 := hf2 st' hq.2
+      cases neg with
+      | true => simp only [if_true] at a1 a2 ⊢; exact ⟨a1, a2⟩
+      | false => simp only [Bool.false_eq_true, if_false] at a1 a2 ⊢; exact ⟨a1, a2⟩
+
+theorem tback_vc (hs : Spec prog inp A V) (hw : wfProg prog = true) {c : OrdCert} {γ : TGhost}
+    {fwd : Bool} {st : State} {bts : Array BtInsn} (h : TInvB prog A V c γ fwd st bts) :
+    BtPost (TInv prog A V c γ fwd) (TQF prog V γ fwd) (tryBacktrack prog inp fwd st bts) := by
+  have h1 := back_vc hs hw γ.1 fwd h.1
+  have h2 := rbackLoop_vc (inp := inp) γ.2 fwd h.2.1.1 (bts.size + 1) st bts h.2.1.2
+  have h3 := obackLoop_vc hs (c := c) γ.1 fwd (bts.size + 1) st bts h.1.2 h.2.2
+  unfold tryBacktrack at h1 ⊢
+  cases hr : tryBacktrackLoop prog inp fwd (bts.size + 1) st bts with
+  | err e => rw [hr] at h1; exact h1
+  | exhausted st' b => rw [hr] at h1 h2; exact ⟨h1, h2⟩
+  | resumed ip pos st' bts' => rw [hr] at h1 h2 h3; exact ⟨h1, h2, h3.1, h3.2⟩
+
+/-- **Safety of the backtracking executor without the `noIcaseBackref` restriction**: under the
+ordering certificate and the confinement of the look-around bodies, no error site is reachable, and
+in addition every capture range of the final state has `start ≤ end`, a failed run restores the
+groups. -/
+theorem run_safe_ord (hs : Spec prog inp A V) (hw : wfProg prog = true) {c : OrdCert}
+    (hchk : checkOrd prog c = true) (hlc : lookConfined prog = true) (limit : Nat) :
+    ∀ sf (γ : TGhost) ip pos fwd st bts steps peak, TInv prog A V c γ fwd ip pos st bts →
+      Post (TQM prog V γ fwd) (TQF prog V γ fwd) (run prog inp limit sf ip pos fwd st bts steps peak) :=
+  run_rule prog inp (TInv prog A V c) (TInvB prog A V c) (TQM prog V) (TQF prog V) tnest
+    (fun _ _ _ _ _ _ h => tstep_vc hs hw hchk hlc h)
+    (fun _ _ _ _ h => tback_vc hs hw h) limit
+
+/-- The initial configuration of an attempt: all groups unset. -/
+theorem tinv_init (_hw0 : 0 < prog.insns.size) {c : OrdCert} (hchk : checkOrd prog c = true)
+    {pos : Nat} (hA : A true 0 pos) {st : State} (hst : StateOK prog V st)
+    (hclean : ∀ (g : Nat) (gd : GroupData), st.groups[g]? = some gd → gd = ⟨none, none⟩) :
+    TInv prog A V c (pos, (none, st.groups)) true 0 pos st #[.exhausted] := by
+  refine ⟨⟨hA, MovedLe.refl _ _, hst, stackOK_init _ _⟩,
+    ⟨trivial, trivial, [], rfl, fun r hr => (by cases hr), rfl, rfl, fun _ _ => rfl⟩, ?_,
+    ⟨[], rfl, trivial⟩⟩
+  simp only [checkOrd, Bool.and_eq_true, beq_iff_eq] at hchk
+  refine ⟨_, hchk.1, ?_⟩
+  intro g gd hg
+  have hlt : g < prog.groups := by rw [← hst.groups]; exact lt_of_getElem?_eq_some hg
+  refine ⟨1, by simp [hlt], ?_⟩
+  rw [hclean g gd hg]
+  exact sem_reset _ _
+
+end Total
 
 end Frame
 
